@@ -210,6 +210,7 @@ ROUND8 = {
  "C06": "Sub-check diff-in-foreign-layout: migrate diff on golang-migrate / flyway / goose / dbmate / atlas directories, the layout named by the URL, the project file or --dir-format; the directory must validate in its own layout afterwards and a second diff finds nothing.",
  "C07": "Injection site check-raw: expressions whose operators are made of comment / quote characters outside quotes (#>>, #, ->, ^).",
  "C11": "Files holding comments only; every file a successful apply went through must be recorded as applied.",
+ "C12": "CLI tier: a trigger (BEGIN ...; END;) at the head of the file and a --dry-run before the real run, which must reach the same verdict and change nothing (one defect repaired).",
  "C16": "Plans through drivers opened against CockroachDB / PostgreSQL 15 / 10 (enumerated for every third edit, sampled).",
  "C18": "Mixed-case table Users in the initial schema.",
  "C19": "Current databases also created from hand-written DDL (lower-case constraint keyword, bare / double-quoted names, parent spelled in another case); the names a pattern must remove are those of the database, not of Atlas' own inspection (one defect repaired).",
